@@ -845,6 +845,24 @@ def sub_pairs(ctx, fi):
             ps, rs = loop_values(ctx, fi, c.args[0], env), loop_values(ctx, fi, c.args[1], env)
             if ps and rs and len(ps) == len(rs) and all(isinstance(x, str) for x in ps + rs):
                 out.extend((a, b, c) for a, b in zip(ps, rs))
+    # compiled patterns: RX.sub(<const>, text), also driven by a table a for-loop walks
+    for c in walk_local(fi.node):
+        if not (isinstance(c, ast.Call) and isinstance(c.func, ast.Attribute) and c.func.attr == 'sub'
+                and dotted(c.func) != 're.sub' and len(c.args) >= 2):
+            continue
+        rcv = c.func.value
+        try:
+            pv = fold_in_func(ctx, fi, rcv)
+        except AnalysisError:
+            pv = None
+        r_ = ctx.fold.eval(c.args[0], env, fi.module.name)
+        if pv is not None and hasattr(pv, 'pattern') and isinstance(r_, str):
+            out.append((pv.pattern, r_, c))
+            continue
+        if isinstance(rcv, ast.Name) and isinstance(c.args[0], ast.Name):
+            ps, rs = loop_values(ctx, fi, rcv, env), loop_values(ctx, fi, c.args[0], env)
+            if ps and rs and len(ps) == len(rs) and all(hasattr(x, 'pattern') for x in ps) and all(isinstance(x, str) for x in rs):
+                out.extend((a.pattern, b, c) for a, b in zip(ps, rs))
     return out
 
 
